@@ -58,6 +58,16 @@ def reused(c, p):
                 if fin: lines.append(sq_line(rng, kind, 32))
                 lines += [init_line(rng, kind, 1, re=1), 'sp.absorb kind=%s obj=1 in=%s' % (kind, hx(m)), sq_line(rng, kind, 32), 'sp.free kind=%s obj=1' % kind]
                 p.case(lines, cost=0.5); c.distinct([(kind, 'reused', k, fin)])
+        # a copy taken in the absorbing phase and one taken after squeezing has begun (any length, also 0) continue like the original
+        for sq in (None, 0, 3, 8, 16):
+            m = pattern(rng, rng.choice([0, 5, 8, 21]), 'rand')
+            lines = [init_line(rng, kind), 'sp.absorb kind=%s obj=1 in=%s' % (kind, hx(m))]
+            if sq is not None and kind not in ('hash', 'hasha'): lines.append(sq_line(rng, kind, sq))
+            lines += ['sp.copy kind=%s obj=2 src=1 junk=%d' % (kind, rng.randrange(256))]
+            if kind in ('hash', 'hasha'): lines += [sq_line(rng, kind, 32, 2), sq_line(rng, kind, 32, 1)]
+            else: lines += [sq_line(rng, kind, 11, 2), sq_line(rng, kind, 11, 1), sq_line(rng, kind, 24, 2)]
+            lines += ['sp.free kind=%s obj=1' % kind, 'sp.free kind=%s obj=2' % kind]
+            p.case(lines, cost=0.5); c.distinct([(kind, 'copy', sq)])
 
 def run(c):
     c.mc_bg('MC_Sponge', disabled=('DoCopy', 'DoSqueeze2', 'ReAbsorb'))
